@@ -313,6 +313,8 @@ VECTORS = [
     (["D", "E"], 3),
     (["D", "--codemod-include", "a", "--codemod-exclude", "b"], 3),
     (["D", "--max-workers", "many"], 3),
+    (["D", "--max-workers", "0"], 3),
+    (["D", "--max-workers=-3"], 3),
     (["D", "--output-format", "zip"], 3),
     (["D", "--output"], 3),
     (["D", "--log-format", "xml"], 3),
@@ -327,7 +329,7 @@ def cli_status(sel: int) -> bool:
     """cli.parse_args on a vocabulary of argument vectors (valid, unknown, conflicting, repeated, missing
     operands, informational): valid vectors parse, invalid ones exit with status 3, --version/--help/--list/
     --describe exit 0.
-    pre: 0 <= sel < 17
+    pre: 0 <= sel < 19
     post: _
     """
     import contextlib
@@ -387,7 +389,7 @@ SPEC = {
         "codemodder.cli.parse_args / ArgumentParser.error / CsvListAction / ListAction / DescribeAction",
     ],
     "bounds": {
-        "quick": "symbolic environment flags of run(), explored in two groups (input conditions: 10 flags; AI settings / report / dry-run: 8 flags): directory exists; 0-2 SARIF files x tool in {semgrep, codeql, other, semgrep preceded by a malformed run} x exists; Sonar / DefectDojo file given x exists; 4 AI-client environment variables (absent / exported but empty / set); --output given x writable / OSError / non-OSError on write; --dry-run.  CLI: a vocabulary of 17 argument vectors selected by a symbolic index",
+        "quick": "symbolic environment flags of run(), explored in two groups (input conditions: 10 flags; AI settings / report / dry-run: 8 flags): directory exists; 0-2 SARIF files x tool in {semgrep, codeql, other, semgrep preceded by a malformed run} x exists; Sonar / DefectDojo file given x exists; 4 AI-client environment variables (absent / exported but empty / set); --output given x writable / OSError / non-OSError on write; --dry-run.  CLI: a vocabulary of 19 argument vectors selected by a symbolic index",
         "thorough": "same space",
     },
     "assumptions": [
